@@ -29,7 +29,7 @@ VIEWS = ["deser-key", "deser-alt-spelling", "ser-key", "dschema-properties", "ds
          "sschema-required", "sschema-depreq", "loc-type", "loc-missing", "loc-depreq", "loc-validator-get_alias", "loc-validator-aliasedstr",
          "loc-validator-field", "loc-validator-path", "get_alias", "graphql-output", "graphql-input", "graphql-arg", "graphql-operation",
          "graphql-resolver", "graphql-arg-error-loc", "method-agreement"]
-REQUIRED = ["programs", "program_configs"] + ["view:" + v for v in VIEWS] + ["mode:default", "mode:call", "mode:global", "mode:camel_case", "mode:global+call",
+REQUIRED = ["ser_views_with_additional_properties", "programs", "program_configs"] + ["view:" + v for v in VIEWS] + ["mode:default", "mode:call", "mode:global", "mode:camel_case", "mode:global+call",
                                                                              "struct:nested", "struct:flattened", "struct:depreq", "struct:methods",
                                                                              "kind:dataclass", "kind:namedtuple", "kind:typeddict", "pairwise_agreement_fields"]
 RULE = ("enumerated object types: 1-2 fields (seeded extras: 3-4) drawn from a pool of 13 naming features (snake, camelCase, _private, keyword aliases "
@@ -801,6 +801,15 @@ def check(env, prog, source, mod, cfg):
             env.count("alt_and_validator_views_skipped_after_rejected_valid_datum")
         view_error_locs(cx, T)
         m_ser = view_ser(cx, T)
+        if '"typeddict"' in json.dumps(cx.prog, default=str):
+            # the same view when additional properties are copied through (TypedDict objects keep unknown keys): still one key per field
+            kw0 = cx.kw
+            cx.kw = {**kw0, "additional_properties": True}
+            try:
+                view_ser(cx, T)
+                env.count("ser_views_with_additional_properties")
+            finally:
+                cx.kw = kw0
         view_schema(cx, T, "deserialization")
         m_sch = view_schema(cx, T, "serialization")
         m_gql = view_graphql(cx)
